@@ -9,7 +9,7 @@ import schedcases
 
 MANIFEST = {
  "category": "proof",
- "text": "Over Mro/Sched.v, for every dependency relation and every history (unbounded, any interleaving): C06_failed_blocks_dependents (while a failed job is not reset, no job depending on it is ever started and it stays idle), C06_failed_never_complete (a failed job is never done, so the pipestance cannot be complete), C06_done_never_restarted (work completed before the failure is not re-executed after the restart), C06_restart_only_resets_unfinished (a reset is only ever enabled for a failed or running job). Tie (fault enumeration on the real mrp+mrjob): for generated programs, every job of a clean run is a candidate failure site x every manifestation (error message, assertion, non-zero exit, death by signal, truncated / unparseable _outs, missing output key, wrong JSON type; at split, chunk and join jobs; bad _stage_defs at splits), with auto-retry off and on (persistent and one-shot transient faults). Checked on each run: mrp exits non-zero and never prints success, the failure report names the failing stage's directory, the observed history (start/fault/end records + incarnation boundaries) is accepted by Sched.valid_trace in the kernel (so no dependent started, nothing done was re-run), and after the fault is removed a restart completes with the outs of the clean run.",
+ "text": "Over Mro/Sched.v, for every dependency relation and every history (unbounded, any interleaving): C06_failed_blocks_dependents (while a failed job is not reset, no job depending on it is ever started and it stays idle), C06_failed_never_complete (a failed job is never done, so the pipestance cannot be complete), C06_done_never_restarted (work completed before the failure is not re-executed after the restart), C06_restart_only_resets_unfinished (a reset is only ever enabled for a failed or running job). Tie (fault enumeration on the real mrp+mrjob): for generated programs, every job of a clean run is a candidate failure site x every manifestation (error message, assertion, non-zero exit, death by signal, truncated / unparseable _outs, missing output key, wrong JSON type; at split, chunk and join jobs; bad _stage_defs at splits, a split that fails after writing a different chunk list), with auto-retry off and on (persistent and one-shot transient faults). Checked on each run: mrp exits non-zero and never prints success, the failure report names the failing stage's directory, the observed history (start/fault/end records + incarnation boundaries) is accepted by Sched.valid_trace in the kernel (so no dependent started, nothing done was re-run), and after the fault is removed a restart completes with the outs of the clean run.",
  "note": "Proof about the scheduler model + fault enumeration against it. Known finding (recorded, not repaired): when a job exits successfully but its _outs is unparseable / lacks a key / is ill-typed, the failure is stored at fork (or chunk) level and a plain restart reports it again without re-executing anything. The retry classification (which error texts are transient) is exercised, not modelled. Missing keys in _stage_defs and in chunk outs of splitting stages are accepted by martian by design (treated as no chunks / null) and are not injected.",
  "technique": "Coq invariant proofs over all histories of a scheduler state machine + fault enumeration on real mrp with kernel-evaluated trace acceptance",
 }
@@ -70,6 +70,8 @@ def check(ctx, args):
                 # types only under --strict (Chunk.verifyOutput returns early at the
                 # default enforcement level): by design, see MANIFEST note
                 kind = "invalid"
+            if phase == "split" and k % 3 == 0:
+                kind = "stale_defs"   # the split writes a shorter chunk list, then exits non-zero
             if kind in CONTENT and stage in noouts:
                 kind = "exit"         # a stage without output parameters: the content of _outs is never read
             retry, once = "0", False
